@@ -24,4 +24,12 @@ CLAIMS["C11"] = {
             "per-tree proof correctness only rides along (DESIGN 5).",
     "note": "Trusted: refmodel.RMTRoot (DESIGN A.5). Unique leaves. Sampling only.",
 }
+CLAIMS["C16"] = {
+    "engine": "seqsim", "level": "exploration", "design_ref": "4/C16, A.4",
+    "technique": "deterministic simulation: seeded block/transaction/revert/restart histories with crash injection inside Commit against a model state map, model event log and naive SMT root",
+    "text": "Seeded exploration of command programs and commit/revert/restart sequences over the real ABI handler, state machine, staged store and state tree on a simulated disk; per transaction the returned "
+            "events and result, per commit the state DB dump and the root (naive LIP-0039 root with deleted keys absent), per revert the previous dump and root, per restart the roll-back to the engine tip, and a crash "
+            "at drawn file-system calls inside Commit with before/after-image check and recovery. Sampling, not proof.",
+    "note": "Trusted: the model in harness/c16 and refmodel.SMTRoot. The application is the simulation module; the handler is called in-process with the Consensus field filled in.",
+}
 PENDING = {}
